@@ -106,6 +106,9 @@ def run_case(case):
     forced = []
     if case["idx"] % 20 == 7:
         spec0, e0 = directed_spec(rnd); forced = [e0]
+    if case["idx"] % 6 == 3 and not forced:
+        # an input that is added to a series, edited twice in a row (must not be added twice)
+        forced = ["storage_base", "storage_base"]
     if case["idx"] % 8 == 5:
         # a model with every builder class (services, GPU and cloud servers): the same oracle, edits also on builder inputs
         from .c17 import builder_spec
@@ -135,6 +138,9 @@ def run_case(case):
         else:
             if forced:
                 e = forced.pop(0)
+                if isinstance(e, str):
+                    e = edits.KINDS[e](rnd, h.spec) or h.propose(case.get("mix"))
+                    e.setdefault("kind", "storage_base")
             elif spec0 is not None and "web" in h.spec["objects"] and rnd.random() < 0.4:
                 from .c17 import builder_edit
                 e = builder_edit(rnd, h.spec) or h.propose(case.get("mix"))
